@@ -296,3 +296,150 @@ Proof.
   destruct (f d e) as [[[adv tok] rtw]| | |]; try reflexivity.
   destruct tok; reflexivity.
 Qed.
+
+(* ---------- RS = "": RT, whole input at once (guards: no CR, no leading newline) ---------- *)
+
+Lemma wb_of_rec rs f : wb unit bytes (to_split_rec f) -> wb unit record (to_split rs f).
+Proof.
+  intros W. split.
+  - intros st d e. destruct (wb_ok _ _ _ W st d e) as (adv & tok & st' & Hs & Hb & Hp).
+    rewrite (to_split_rec_map rs) in Hs.
+    destruct (to_split rs f st d e) as [a t s|]; [|discriminate].
+    cbn [map_sres] in Hs. injection Hs as <- Ht <-.
+    eexists _, _, _. split; [reflexivity|]. split; [exact Hb|].
+    intros Hn. apply Hp. rewrite <- Ht. destruct t; [discriminate|congruence].
+  - intros st. pose proof (wb_empty _ _ _ W st) as Hs.
+    rewrite (to_split_rec_map rs) in Hs.
+    destruct (to_split rs f st [] false) as [a t s|]; [|discriminate].
+    cbn [map_sres] in Hs. injection Hs as <- Ht <-. destruct t; [discriminate|reflexivity].
+Qed.
+
+Definition blank_full : splitfn unit record := to_split [] blank_scan.
+
+Lemma blank_full_wb : wb unit record blank_full.
+Proof. apply wb_of_rec. exact blank_rec_wb. Qed.
+
+Lemma strip_last_notin c d : ~ In c d -> strip_last c d = d.
+Proof.
+  induction d as [|x d IH]; [reflexivity|]. intros Hn. cbn [strip_last]. destruct d as [|y d].
+  - destruct (x =? c) eqn:E; [|reflexivity]. apply Z.eqb_eq in E. exfalso. apply Hn. left. exact E.
+  - rewrite IH; [reflexivity|]. intro H. apply Hn. right. exact H.
+Qed.
+
+Lemma strip_last_prefix c d : exists s, d = strip_last c d ++ s.
+Proof.
+  induction d as [|x d IH]; [exists []; reflexivity|]. cbn [strip_last]. destruct d as [|y d].
+  - destruct (x =? c); [exists [x]|exists []]; reflexivity.
+  - destruct IH as (s & Hs). exists s. cbn [app]. rewrite <- Hs. reflexivity.
+Qed.
+
+Lemma skip_nl_idem l : skip_nl (zdrop (skip_nl l) l) = 0.
+Proof.
+  induction l as [|c l IH]; [reflexivity|]. cbn [skip_nl].
+  destruct ((c =? 10) || (c =? 13)) eqn:E.
+  - rewrite zdrop_cons by apply skip_nl_bounds. exact IH.
+  - rewrite zdrop_0. cbn [skip_nl]. rewrite E. reflexivity.
+Qed.
+
+(* after a paragraph and its terminator the data does not start with a newline *)
+Lemma find_blank_rest l : forall i en i', find_blank l i = Some (en, i') ->
+  skip_nl (zdrop (i' - i) l) = 0.
+Proof.
+  induction l as [|c l' IH]; intros i en i' H; [discriminate|].
+  pose proof H as Hb. apply find_blank_bounds in Hb.
+  cbn [find_blank] in H.
+  assert (R : find_blank l' (i + 1) = Some (en, i') -> skip_nl (zdrop (i' - i) (c :: l')) = 0).
+  { intros H'. pose proof H' as Hb'. apply find_blank_bounds in Hb'.
+    replace (i' - i) with (1 + (i' - (i + 1))) by lia.
+    rewrite zdrop_cons by lia. exact (IH _ _ _ H'). }
+  destruct (c =? 10); [|exact (R H)].
+  destruct l' as [|c1 l2]; [exact (R H)|].
+  destruct (c1 =? 10).
+  - injection H as <- <-. pose proof (skip_nl_bounds l2).
+    replace (i + 2 + skip_nl l2 - i) with (1 + (1 + skip_nl l2)) by lia.
+    rewrite !zdrop_cons by lia. apply skip_nl_idem.
+  - destruct l2 as [|c2 l3]; [exact (R H)|].
+    destruct ((c1 =? 13) && (c2 =? 10)); [|exact (R H)].
+    injection H as <- <-. pose proof (skip_nl_bounds l3).
+    replace (i + 3 + skip_nl l3 - i) with (1 + (1 + (1 + skip_nl l3))) by lia.
+    rewrite !zdrop_cons by lia. apply skip_nl_idem.
+Qed.
+
+Lemma in_zdrop {A} (x : A) n l : In x (zdrop n l) -> In x l.
+Proof. unfold zdrop. rewrite <- (firstn_skipn (Z.to_nat n) l) at 2. intros H. apply in_or_app. right. exact H. Qed.
+
+Lemma in_ztake {A} (x : A) n l : In x (ztake n l) -> In x l.
+Proof. unfold ztake. rewrite <- (firstn_skipn (Z.to_nat n) l) at 2. intros H. apply in_or_app. left. exact H. Qed.
+
+Lemma ztake_add {A} a b (l : list A) : 0 <= a -> 0 <= b ->
+  ztake (a + b) l = ztake a l ++ ztake b (zdrop a l).
+Proof.
+  intros Ha Hb. rewrite <- (ztake_zdrop a (ztake (a + b) l)). f_equal.
+  - unfold ztake. rewrite firstn_firstn. f_equal. lia.
+  - unfold ztake, zdrop. rewrite skipn_firstn_comm. f_equal. lia.
+Qed.
+
+Definition full_of (st : unit) (r : raw) : sres unit record :=
+  match r with
+  | (adv, tok, rtw) => SOk adv (option_map (fun t => (t, match rtw with Some r => r | None => [] end)) tok) st
+  end.
+
+Lemma blank_full_closed st d e : blank_full st d e = full_of st (blank_pure d e).
+Proof.
+  unfold blank_full, to_split. rewrite blank_scan_closed.
+  destruct (blank_pure d e) as [[adv tok] rtw]. reflexivity.
+Qed.
+
+Lemma blank_full_consumes : forall n d, (length d <= n)%nat -> ~ In 13 d -> skip_nl d = 0 ->
+  forall ts st' b', drainF unit record blank_full true tt d = (ts, DMore st' b') ->
+  concat (map (fun t => fst t ++ snd t) ts) = d.
+Proof.
+  induction n as [|n IH]; intros d Hlen Hcr Hsk ts st' b' Hd;
+    rewrite (drainF_wb _ _ _ blank_full_wb) in Hd;
+    rewrite blank_full_closed in Hd; unfold blank_pure in Hd.
+  - assert (d = []) by (destruct d; [reflexivity|cbn in Hlen; lia]). subst d.
+    cbn in Hd. injection Hd as <- _ _. reflexivity.
+  - destruct d as [|c x].
+    { cbn in Hd. injection Hd as <- _ _. reflexivity. }
+    cbn [andb nilb] in Hd. set (d := c :: x) in *. rewrite Hsk in Hd.
+    assert (Hpos : 0 < zlen d) by (unfold d; rewrite zlen_cons; pose proof (zlen_nonneg x); lia).
+    clearbody d.
+    replace (zlen d <=? 0) with false in Hd by (symmetry; apply Z.leb_gt; lia).
+    rewrite zdrop_0 in Hd.
+    destruct (find_blank d 0) as [[en i']|] eqn:Hf.
+    + pose proof (find_blank_bounds _ _ _ _ Hf) as Hb.
+      pose proof (find_blank_rest _ _ _ _ Hf) as Hrest. rewrite Z.sub_0_r in Hrest.
+      cbn [full_of option_map] in Hd. rewrite Z.sub_0_r in Hd.
+      rewrite strip_last_notin in Hd by (intro Hi; apply Hcr; exact (in_ztake _ _ _ Hi)).
+      destruct (drainF unit record blank_full true tt (zdrop i' d)) as [ts1 r1] eqn:E1.
+      cbn [tcons fst snd] in Hd. injection Hd as <- ->.
+      cbn [map concat fst snd].
+      rewrite (IH (zdrop i' d)) with (ts := ts1) (st' := st') (b' := b').
+      * rewrite <- ztake_add by lia. replace (en + (i' - en)) with i' by lia. apply ztake_zdrop.
+      * assert (length (zdrop i' d) < length d)%nat by (apply length_zdrop_lt; lia). lia.
+      * intro Hi. apply Hcr. exact (in_zdrop _ _ _ Hi).
+      * exact Hrest.
+      * exact E1.
+    + cbn [full_of option_map] in Hd.
+      rewrite (strip_last_notin 13) in Hd
+        by (intro Hi; destruct (strip_last_prefix 10 d) as (s & Hs); apply Hcr; rewrite Hs; apply in_or_app; left; exact Hi).
+      rewrite (zdrop_all (zlen d) d) in Hd by lia.
+      rewrite (drainF_wb _ _ _ blank_full_wb) in Hd.
+      rewrite blank_full_closed in Hd.
+      replace (blank_pure [] true) with ((0, None, None) : raw) in Hd by reflexivity.
+      cbn [full_of option_map tcons fst snd] in Hd.
+      injection Hd as <- _ _. cbn [map concat fst snd]. rewrite app_nil_r.
+      destruct (strip_last_prefix 10 d) as (s & Hs).
+      remember (strip_last 10 d) as t eqn:Ht. clear Ht. subst d.
+      rewrite zdrop_zlen_app. reflexivity.
+Qed.
+
+(* RS = "", whole input at once, no CR, no leading newline: records with their RT reproduce the input *)
+Theorem blank_reconstruct_partial find data : ~ In 13 data -> skip_nl data = 0 ->
+  concat (map (fun t => fst t ++ snd t) (fst (reference unit record (goawk_split [] find) tt data))) = data.
+Proof.
+  intros Hcr Hsk. unfold reference, finish.
+  change (goawk_split [] find) with blank_full.
+  destruct (drainF_wb_more _ _ _ blank_full_wb true tt data) as (ts & st' & b' & E). rewrite E.
+  cbn [fst]. exact (blank_full_consumes (length data) data (le_n _) Hcr Hsk ts st' b' E).
+Qed.
